@@ -38,7 +38,7 @@ ANCHORS = ['Table.delimited_self', 'Table._extract_data_from_tsv', 'Table.from_t
 REQUIRED = ['import_cli_with_sample_mapping_file', 'export_column_name_without_hash', 'hierarchical_category_round_trips', 'import_from_tsv_with_mappings', 'ids_with_line_boundary_characters', 'text_category_round_trips', 'last_sample_named_like_a_metadata_column', 'scale_exports', 'ids_with_blanks_at_their_edges', 'non_finite_value_in_last_column', 'export_legacy_function', 'export_other_column_name',
             'import_legacy_convert_table_to_biom', 'export_asked_for_absent_metadata', 'exported_again_after_change', 'export_to_tsv', 'export_str', 'export_direct_io',
             'export_cli', 'import_from_tsv_lines', 'import_from_tsv_handle',
-            'import_load_table', 'import_load_table_gz', 'import_load_table_crlf', 'import_from_tsv_lines_crlf', 'import_from_tsv_keywords',
+            'import_load_table', 'import_load_table_gz', 'import_load_table_crlf', 'import_from_tsv_lines_crlf', 'import_from_tsv_keywords', 'lines_list_read_twice',
             'import_parse_table_lines', 'import_cli_json', 'import_cli_hdf5',
             'with_md_column', 'single_sample', 'single_observation',
             'exponent_in_last_column', 'layout_csc_seen',
@@ -485,9 +485,24 @@ def run_case(ctx, index):
         files.append(crlf)
         with open(crlf, 'w', encoding='utf-8', newline='') as f:
             f.write('\r\n'.join(lines) + '\r\n')
+        # the caller's list of lines is the caller's: it is handed over as
+        # it is, must come back as it went in and read the same a second time
+        mine = list(lines)
+
+        def twice_from_my_list():
+            first = biom.Table.from_tsv(mine, None, None, proc)
+            if mine != lines:
+                raise RuntimeError('the list of lines handed to from_tsv has '
+                                   '%d entries afterwards, had %d' %
+                                   (len(mine), len(lines)))
+            again = biom.Table.from_tsv(mine, None, None, proc)
+            if snap.diff(snap.snap(again), snap.snap(first)):
+                raise RuntimeError('the same list of lines read a second '
+                                   'time gives another table')
+            ctx.count('lines_list_read_twice')
+            return first
         importers = [
-            ('from_tsv_lines', 'list', lambda: biom.Table.from_tsv(
-                list(lines), None, None, proc)),
+            ('from_tsv_lines', 'list', twice_from_my_list),
             ('from_tsv_handle', 'list', lambda: biom.Table.from_tsv(
                 io.StringIO(text), None, None, proc)),
             # the reader's own keywords spelled out (an identity pre-parser
